@@ -24,6 +24,13 @@ Lemma rounding_places_guarded :
   /\ List.length rounding_guarded = 3%nat.
 Proof. vm_compute. repeat split; reflexivity. Qed.
 
+(* the limit on decimal exponents is in the source and is the model's; Multiply starts with the exponent guard,
+   Divide and Mod start with the zero-divisor guard *)
+Lemma operator_guards_in_source :
+  max_number_exponent_src = max_number_exponent /\ forallb snd operator_guards = true
+  /\ List.length operator_guards = 3%nat.
+Proof. vm_compute. repeat split; reflexivity. Qed.
+
 (* ------------------------------------------------------------------------------------------------ *)
 (* what a [true] of the decision procedure means, for the bounded registrations: for EVERY admitted count *)
 
@@ -44,6 +51,81 @@ Proof.
   { unfold admitted_counts. replace (r_max r <? 0) with false by (symmetry; apply Z.ltb_ge; lia).
     apply zrange_in. lia. }
   specialize (Hok Hin). cbv zeta in Hok. rewrite Hg in Hok. exact Hok.
+Qed.
+
+(* ... and for the registrations WITHOUT a maximum: beyond the horizon the guards no longer change and the
+   index stays in range, so the finitely many counts checked decide all of them *)
+
+Lemma cmp_stable : forall c m n n', Z.abs m < n -> Z.abs m < n' -> cmp_holds c n m = cmp_holds c n' m.
+Proof.
+  intros c m n n' H H'. destruct c; simpl.
+  - replace (n =? m) with false by (symmetry; apply Z.eqb_neq; lia).
+    replace (n' =? m) with false by (symmetry; apply Z.eqb_neq; lia). reflexivity.
+  - replace (n =? m) with false by (symmetry; apply Z.eqb_neq; lia).
+    replace (n' =? m) with false by (symmetry; apply Z.eqb_neq; lia). reflexivity.
+  - replace (n <? m) with false by (symmetry; apply Z.ltb_ge; lia).
+    replace (n' <? m) with false by (symmetry; apply Z.ltb_ge; lia). reflexivity.
+  - replace (n <=? m) with false by (symmetry; apply Z.leb_gt; lia).
+    replace (n' <=? m) with false by (symmetry; apply Z.leb_gt; lia). reflexivity.
+  - replace (m <? n) with true by (symmetry; apply Z.ltb_lt; lia).
+    replace (m <? n') with true by (symmetry; apply Z.ltb_lt; lia). reflexivity.
+  - replace (m <=? n) with true by (symmetry; apply Z.leb_le; lia).
+    replace (m <=? n') with true by (symmetry; apply Z.leb_le; lia). reflexivity.
+Qed.
+
+Lemma guard_max_nonneg : forall g, 0 <= guard_max g.
+Proof. induction g; simpl; lia. Qed.
+
+Lemma guard_stable : forall g n n', guard_max g < n -> guard_max g < n' -> guard_holds n g = guard_holds n' g.
+Proof.
+  induction g as [|c m|g IH|x IHa y IHb|x IHa y IHb]; intros n n' H H'; simpl in *.
+  - reflexivity.
+  - apply cmp_stable; assumption.
+  - f_equal. apply IH; assumption.
+  - rewrite (IHa n n'), (IHb n n'); try reflexivity; lia.
+  - rewrite (IHa n n'), (IHb n n'); try reflexivity; lia.
+Qed.
+
+Lemma horizon_guards : forall s g, In g (s_guards s) -> guard_max g + 2 <= horizon s.
+Proof.
+  intros s g. unfold horizon. generalize (Z.abs (s_k s)) as k0.
+  induction (s_guards s) as [|x r IH]; intros k0 Hin; simpl in *; [contradiction|].
+  destruct Hin as [->|Hin]; [lia|]. specialize (IH k0 Hin). lia.
+Qed.
+
+Lemma horizon_index : forall s, Z.abs (s_k s) + 2 <= horizon s.
+Proof.
+  intros s. unfold horizon. induction (s_guards s) as [|x r IH]; simpl; lia.
+Qed.
+
+Lemma in_range_mono : forall s n n', in_range s n = true -> n <= n' -> in_range s n' = true.
+Proof.
+  intros s n n' H Hle. unfold in_range in *. destruct (s_kind s); apply andb_prop in H as [H1 H2];
+    apply andb_true_intro; split; try assumption.
+  - apply Z.ltb_lt in H2. apply Z.ltb_lt. lia.
+  - apply Z.leb_le in H2. apply Z.leb_le. lia.
+Qed.
+
+Lemma site_ok_for_sound_unbounded : forall s r sh total,
+  site_ok_for s r = true -> site_shift s r = Some sh -> r_max r < 0 -> sh <= Z.max (r_shift r) 0 ->
+  r_min r <= total ->
+  forallb (guard_holds (total - sh)) (s_guards s) = true -> in_range s (total - sh) = true.
+Proof.
+  intros s r sh total Hok Hsh Hmax Hshb Ht Hg. unfold site_ok_for in Hok. rewrite Hsh in Hok.
+  rewrite forallb_forall in Hok.
+  set (hi := Z.max (r_min r) 0 + Z.max (r_shift r) 0 + horizon s).
+  assert (Hrange : forall x, r_min r <= x <= hi -> In x (admitted_counts s r)).
+  { intros x Hx. unfold admitted_counts. replace (r_max r <? 0) with true by (symmetry; apply Z.ltb_lt; lia).
+    apply zrange_in. fold hi. lia. }
+  pose proof (horizon_index s) as Hk.
+  destruct (Z_le_gt_dec total hi) as [Hle|Hgt].
+  - specialize (Hok total (Hrange total (conj Ht Hle))). cbv zeta in Hok. rewrite Hg in Hok. exact Hok.
+  - assert (Hhi : r_min r <= hi <= hi) by (unfold hi; lia).
+    specialize (Hok hi (Hrange hi Hhi)). cbv zeta in Hok.
+    assert (Hg' : forallb (guard_holds (hi - sh)) (s_guards s) = true).
+    { rewrite forallb_forall in *. intros g Hin. rewrite <- (Hg g Hin).
+      pose proof (horizon_guards s g Hin). apply guard_stable; unfold hi; lia. }
+    rewrite Hg' in Hok. simpl in Hok. eapply in_range_mono; [exact Hok|lia].
 Qed.
 
 (* the table is not trivially satisfied: there are guarded sites whose guard matters *)
